@@ -28,6 +28,12 @@ func markCases(prop, tier string, seed uint64) []Case {
 	var cases []Case
 	for i := 0; i < n; i++ {
 		cfg := Cfg{Enc: []string{"age", "pgp"}[i%2], Comp: comps[(i/2)%len(comps)], Sig: []string{"", "minisign", "pgp"}[(i/16+i)%3], Level: []string{"fastest", "balanced", "smallest"}[i%3], RS: []int{1, 3, 20, 64}[r.Intn(4)], WC: []string{"file", "memory"}[r.Intn(2)]}
+		if i%8 == 5 {
+			// the drive is a tape (not a regular file): whole records are written, short sessions are padded
+			cfg.TapeMode = true
+			cfg.RS = []int{20, 128, 7}[r.Intn(3)]
+			cfg.Sig = []string{"", "pgp"}[i%2] // minisign cannot sign streams on tapes
+		}
 		pb, _ := json.Marshal(markP{Cfg: cfg, Steps: steps/2 + r.Intn(steps/2+1)})
 		cases = append(cases, Case{ID: fmt.Sprintf("c09-%04d", i), Seed: subSeed(seed, prop, tier, fmt.Sprint(i)), Kind: "random", P: pb})
 	}
@@ -92,8 +98,18 @@ func markRunInner(c Case, w *Worker, collect bool) (res Result) {
 		res.violate("c09|"+sig, fmt.Sprintf("[%s] after %d calls (last: %s): ", cfg, len(ops), lastOf(ops))+fmt.Sprintf(format, a...))
 	}
 	if err := rig.Init(); err != nil {
+		if cfg.TapeMode && expectUnsupported(cfg) && isUnsupportedErr(err) {
+			res.count("tape_mode_configs_rejected_as_unsupported", 1)
+			res.NonTrivial = true
+			res.Key = c.ID
+			res.Detail = nil
+			return
+		}
 		viol("init", "Initialize: %v", err)
 		return
+	}
+	if cfg.TapeMode {
+		res.count("tape_mode_histories", 1)
 	}
 	type needle struct {
 		what string
@@ -211,6 +227,15 @@ func markRunInner(c Case, w *Worker, collect bool) (res Result) {
 		}
 		return
 	}
+	if cfg.TapeMode {
+		// what a tape-mode writer produced cannot be read back through a regular file here: the wrong-key part is left to the other cases
+		res.count("records_on_tape", int64(scanned))
+		res.NonTrivial = scanned >= 3
+		res.Key = sum([]byte(cfg.String() + strings.Join(ops, "\n")))
+		res.Detail = nil
+		res.Sample = map[string]any{"cfg": cfg.String(), "ops": ops, "records": scanned}
+		return
+	}
 	// a different private key must neither rebuild the index nor restore anything
 	rows, _ := DumpRows(rig.DB)
 	rig.LocksSettled()
@@ -290,6 +315,6 @@ func markRunInner(c Case, w *Worker, collect bool) (res Result) {
 func init() {
 	register(&Engine{Name: "markers", Props: []string{"C09"}, Cases: markCases, Run: markRun})
 	propMeta["C09"] = PropMeta{Level: "exploration",
-		Rule:        "per case one generated history (files, directories, symlinks, chmod/chown/chtimes, renames, removes, batched archive/update/delete/move) under {age,pgp} x 8 compression formats x {none,minisign,pgp} whose names are 20-character random markers, whose contents embed a 40-character marker and whose owners/timestamps are marker numbers; after every call the raw drive file is searched for every marker (raw, hex, base64 at 3 alignments), for clear-text forms of the owner/timestamp values and for STFS.* keys and embedded-header field names, and every outer tar header found by an independent scan must be the fixed wrapper (all fields empty/zero, single PAX key STFS.EmbeddedHeader); at the end recovery.Index and recovery.Fetch with an unrelated key pair must fail; non-trivial = at least 5 records on the tape; distinct = distinct (configuration, call list)",
+		Rule:        "per case one generated history (files, directories, symlinks, chmod/chown/chtimes, renames, removes, batched archive/update/delete/move) under {age,pgp} x 8 compression formats x {none,minisign,pgp} (an eighth of the cases with a tape-mode writer: whole records, padded sessions) whose names are 20-character random markers, whose contents embed a 40-character marker and whose owners/timestamps are marker numbers; after every call the raw drive file is searched for every marker (raw, hex, base64 at 3 alignments), for clear-text forms of the owner/timestamp values and for STFS.* keys and embedded-header field names, and every outer tar header found by an independent scan must be the fixed wrapper (all fields empty/zero, single PAX key STFS.EmbeddedHeader); at the end recovery.Index and recovery.Fetch with an unrelated key pair must fail; non-trivial = at least 5 records on the tape; distinct = distinct (configuration, call list)",
 		Assumptions: []string{"markers are long enough that a chance occurrence in ciphertext has probability < 2^-60 per tape", "record lengths are allowed to be visible; cryptographic strength is not judged"}}
 }
